@@ -97,13 +97,13 @@ struct RejTable {
         }
         if constexpr (kind == MULTI) {
             add("addEdge", 2, true, P_RANGE, [](G &g, unsigned a, unsigned b, bool f, const L &) { g.addEdge(a, b, f); });
-            add("addMultiedge", 2, true, P_RANGE, [](G &g, unsigned a, unsigned b, bool f, const L &l) { g.addMultiedge(a, b, l ? l : 1, f); });
-            add("removeMultiedge", 2, false, P_RANGE, [](G &g, unsigned a, unsigned b, bool, const L &l) { g.removeMultiedge(a, b, l ? l : 1); });
+            add("addMultiedge", 2, true, P_RANGE, [](G &g, unsigned a, unsigned b, bool f, const L &l) { g.addMultiedge(a, b, l, f); }); // multiplicity 0 included: the index must be rejected before the "nothing to add" shortcut
+            add("removeMultiedge", 2, false, P_RANGE, [](G &g, unsigned a, unsigned b, bool, const L &l) { g.removeMultiedge(a, b, l); });
             add("getEdgeMultiplicity", 2, false, P_RANGE, [](G &g, unsigned a, unsigned b, bool, const L &) { (void)g.getEdgeMultiplicity(a, b); });
             add("setEdgeMultiplicity", 2, true, P_RANGE, [](G &g, unsigned a, unsigned b, bool f, const L &l) { g.setEdgeMultiplicity(a, b, f ? 0 : (l ? l : 2)); });
             if constexpr (A::directed) {
                 add("addReciprocalEdge", 2, true, P_RANGE, [](G &g, unsigned a, unsigned b, bool f, const L &) { g.addReciprocalEdge(a, b, f); });
-                add("addReciprocalMultiedge", 2, true, P_RANGE, [](G &g, unsigned a, unsigned b, bool f, const L &l) { g.addReciprocalMultiedge(a, b, l ? l : 1, f); });
+                add("addReciprocalMultiedge", 2, true, P_RANGE, [](G &g, unsigned a, unsigned b, bool f, const L &l) { g.addReciprocalMultiedge(a, b, l, f); });
             }
             add("findVertexPredecessors(asLabeledGraph)", 1, false, P_RANGE, [](G &g, unsigned a, unsigned, bool, const L &) { (void)alg::findVertexPredecessors(g.asLabeledGraph(), a); });
             add("findAllGeodesics(asLabeledGraph)", 2, false, P_RANGE, [](G &g, unsigned a, unsigned b, bool, const L &) { (void)alg::findAllGeodesics(g.asLabeledGraph(), a, b); });
